@@ -97,6 +97,8 @@ let ipb bs =
     "IpHeadersLax=" ^ res_str (rec_hl stop_exts) (LaxIpHeaders.from_slice_lax s);
     "IpHeaders4Lax=" ^ res_str (rec_hl stop_auth) (LaxIpHeadersSpecific.from_ipv4_slice_lax s);
     "IpHeaders6Lax=" ^ res_str (rec_hl stop_exts) (LaxIpHeadersSpecific.from_ipv6_slice_lax s);
+    (* round 3 (v6lax): the 13th copy, model Parse/Ipv6SliceLax.v *)
+    "Ipv6SliceLax=" ^ res_str rec_v6 (Ipv6SliceLax.from_slice_lax s);
   ]
 
 (* ---- group 3 ---- *)
